@@ -377,6 +377,33 @@ func observeModule(c *Chain, ctx sdk.Context, m string) interface{} {
 		}
 		it.Close()
 		v["alias_index"] = aliases
+		// every stored certificate must be retrievable through the module's own query paths
+		unret := []interface{}{}
+		ck := c.App.VerifCertKeeper()
+		for _, cert := range ck.GetAllCertificates(ctx) {
+			id := cert.CertificateId
+			if got, err := ck.GetCertificateByID(ctx, id); err != nil || got.CertificateId != id {
+				unret = append(unret, []interface{}{id, "by-id"})
+			}
+			has := func(cs []certtypes.Certificate) bool {
+				for _, x := range cs {
+					if x.CertificateId == id {
+						return true
+					}
+				}
+				return false
+			}
+			if !has(ck.GetCertificatesByCertifier(ctx, cert.GetCertifier())) {
+				unret = append(unret, []interface{}{id, "by-certifier"})
+			}
+			if _, cs, err := ck.GetCertificatesFiltered(ctx, certtypes.QueryCertificatesParams{Page: 1, Limit: 100000, Certifier: cert.GetCertifier()}); err != nil || !has(cs) {
+				unret = append(unret, []interface{}{id, "by-certifier-filtered"})
+			}
+			if !has(ck.GetCertificatesByContent(ctx, cert.GetContentString())) {
+				unret = append(unret, []interface{}{id, "by-content"})
+			}
+		}
+		v["unretrievable"] = unret
 		return v
 	case "cvm":
 		return exportJ(c, ctx, "cvm")
